@@ -69,6 +69,7 @@ Judge(e) ==
         /\ Report("VERDICT", "C07_NoSilentChange", e, GhostBefore(e) = e.membersPre)
   /\ (e.ev = "StrayEvent") => Report("VERDICT", "C07_EventOutsideStep", e, FALSE)
   /\ (e.ev = "NodeOp" /\ e.exact) => Conforms(e)
+  /\ (e.ev = "NodeOp" /\ e.exact) => Report("DRIFT", "order-core", e, OrderCore(e))
 
 Keep(e) == IF e.case = gcase THEN ghost ELSE << >>
 With(g, n, v) == [m \in DOMAIN g \cup {n} |-> IF m = n THEN v ELSE g[m]]
